@@ -6,6 +6,7 @@ import (
 	"hash/fnv"
 	"os"
 	"path/filepath"
+	"regexp"
 	"sort"
 	"strings"
 	"sync"
@@ -455,6 +456,8 @@ func Main(t *testing.T, world string, props map[string]PropertyFn) {
 	workers := envInt("VERIF_WORKERS", 1)
 	samples := envInt("VERIF_SAMPLES", 2)
 	begin := time.Now()
+	reported := map[string]string{}
+	known := loadKnown(prop)
 	for i := worker; i < runs; i += workers {
 		if secs > 0 && time.Since(begin) > time.Duration(secs)*time.Second {
 			break
@@ -476,47 +479,55 @@ func Main(t *testing.T, world string, props map[string]PropertyFn) {
 			r.Trace = tr
 		}
 		if len(x.Violations) > 0 {
-			inv := x.Violations[0].Invariant
-			used := tape.Used()
-			final := used
-			shrunk := false
-			if os.Getenv("VERIF_NOSHRINK") == "" {
-				var tries int
-				final, tries = shrink(t, world, prop, fn, seed, used, inv, tier)
-				shrunk = true
-				r.Probes["kit.shrink_replays"] = tries
-			}
-			rt := NewReplayTape(seed, final)
-			rt.SetTrace(true)
-			fx := runOnce(t, world, prop, fn, seed, rt, tier, true)
-			if !sameFailure(fx, inv) { // shrinking must never lose the failure; fall back to the full tape
-				final = used
-				shrunk = false
-				rt = NewReplayTape(seed, final)
-				rt.SetTrace(true)
-				fx = runOnce(t, world, prop, fn, seed, rt, tier, true)
-			}
-			v := x.Violations[0]
-			if sameFailure(fx, inv) {
-				v = findViolation(fx, inv)
-			}
-			labels := rt.Labels
-			if len(labels) > 400 {
-				labels = labels[:400]
-			}
-			rf := ReplayFile{Property: prop, World: world, Seed: seed, Tier: tier, Invariant: v.Invariant, Signature: v.Signature, Detail: v.Detail,
-				Tape: final, Shrunk: shrunk, Trace: fx.trace, Labels: labels}
-			b, _ := json.MarshalIndent(rf, "", " ")
-			p := filepath.Join(replayDir, fmt.Sprintf("%s-%d.json", prop, seed))
-			if err := os.WriteFile(p, b, 0o644); err != nil {
-				r.Trouble = append(r.Trouble, "cannot write replay: "+err.Error())
-			}
-			r.Replay = p
-			r.Violations = []Violation{v}
-			for _, o := range x.Violations[1:] {
-				if o.Invariant != v.Invariant || o.Signature != v.Signature {
-					r.Violations = append(r.Violations, o)
+			v0 := x.Violations[0]
+			key := v0.Invariant + "\x00" + v0.Signature
+			if prev, ok := reported[key]; ok || knownFinding(known, v0) {
+				// same class already minimised by this worker, or a listed known finding: report
+				// without spending the shrink budget again
+				r.Violations = []Violation{v0}
+				r.Replay = prev
+			} else {
+				inv := v0.Invariant
+				used := tape.Used()
+				final := used
+				shrunk := false
+				if os.Getenv("VERIF_NOSHRINK") == "" {
+					var tries int
+					final, tries = shrink(t, world, prop, fn, seed, used, inv, tier)
+					shrunk = true
+					r.Probes["kit.shrink_replays"] = tries
 				}
+				rt := NewReplayTape(seed, final)
+				rt.SetTrace(true)
+				fx := runOnce(t, world, prop, fn, seed, rt, tier, true)
+				if !sameFailure(fx, inv) { // shrinking must never lose the failure; fall back to the full tape
+					final = used
+					shrunk = false
+					rt = NewReplayTape(seed, final)
+					rt.SetTrace(true)
+					fx = runOnce(t, world, prop, fn, seed, rt, tier, true)
+				}
+				v := v0
+				if sameFailure(fx, inv) {
+					v = findViolation(fx, inv)
+				}
+				labels := rt.Labels
+				if len(labels) > 400 {
+					labels = labels[:400]
+				}
+				rf := ReplayFile{Property: prop, World: world, Seed: seed, Tier: tier, Invariant: v.Invariant, Signature: v.Signature, Detail: v.Detail,
+					Tape: final, Shrunk: shrunk, Trace: fx.trace, Labels: labels}
+				b, _ := json.MarshalIndent(rf, "", " ")
+				p := filepath.Join(replayDir, fmt.Sprintf("%s-%d.json", prop, seed))
+				if err := os.WriteFile(p, b, 0o644); err != nil {
+					r.Trouble = append(r.Trouble, "cannot write replay: "+err.Error())
+				}
+				r.Replay = p
+				// one violation per run is reported: the replay file is minimised for it, and other
+				// classes are found (and minimised) by the runs in which they come first
+				r.Violations = []Violation{v}
+				reported[v.Invariant+"\x00"+v.Signature] = p
+				reported[key] = p
 			}
 		}
 		emit(r)
@@ -532,4 +543,49 @@ func SortedKeys[V any](m map[string]V) []string {
 	}
 	sort.Strings(ks)
 	return ks
+}
+
+type knownEntry struct {
+	Property  string `json:"property"`
+	Invariant string `json:"invariant"`
+	Signature string `json:"signature"`
+	Status    string `json:"status"`
+}
+
+// loadKnown reads the open known findings (VERIF_KNOWN = path of known_findings.json) so that a
+// worker does not spend its shrink budget on them; the orchestrator decides what is reported.
+func loadKnown(prop string) []knownEntry {
+	p := os.Getenv("VERIF_KNOWN")
+	if p == "" {
+		return nil
+	}
+	b, err := os.ReadFile(p)
+	if err != nil {
+		return nil
+	}
+	var f struct {
+		Findings []knownEntry `json:"findings"`
+	}
+	if json.Unmarshal(b, &f) != nil {
+		return nil
+	}
+	var out []knownEntry
+	for _, k := range f.Findings {
+		if k.Property == prop && k.Status == "open" {
+			out = append(out, k)
+		}
+	}
+	return out
+}
+
+func knownFinding(known []knownEntry, v Violation) bool {
+	for _, k := range known {
+		if ri, err := regexp.Compile("^(?:" + k.Invariant + ")$"); err != nil || !ri.MatchString(v.Invariant) {
+			continue
+		}
+		if re, err := regexp.Compile("^(?:" + k.Signature + ")$"); err == nil && re.MatchString(v.Signature) {
+			return true
+		}
+	}
+	return false
 }
